@@ -47,6 +47,7 @@ def run_selftest(prop: str, rep, repo: str = None) -> None:
         return
     jobs: List[Tuple[str, str]] = []
     expect: Dict[str, str] = {}
+    open_noise: Dict[str, object] = {}
     for kind, root in (("seed", "seeded"), ("silent", "silence")):
         d = os.path.join(VERIF, root)
         if not os.path.isdir(d):
@@ -64,12 +65,15 @@ def run_selftest(prop: str, rep, repo: str = None) -> None:
             if meta.get("property") == prop or kind == "silent":
                 jobs.append((kind, p))
                 expect[p] = meta.get("expect", "caught" if kind == "seed" else "silent")
+                if kind == "silent":
+                    # recorded open limitations: {"<property>": <exit code the check is known to give on this refactoring>}
+                    open_noise[p] = (meta.get("open_noise") or {}).get(prop)
     if not jobs:
         rep.note("self-test: no seeded / silence patches for this property")
         return
     with ThreadPoolExecutor(max_workers=min(16, len(jobs))) as ex:
         results = list(ex.map(lambda j: (j[0],) + _one(prop, j[1], repo), jobs))
-    caught = missed = silent = noisy = skipped = undecided = 0
+    caught = missed = silent = noisy = skipped = undecided = known_noisy = 0
     bad: List[str] = []
     table = []
     for kind, patch, rc, first in results:
@@ -98,10 +102,14 @@ def run_selftest(prop: str, rep, repo: str = None) -> None:
             if rc == 0:
                 silent += 1
                 table.append(f"{name}: silent")
+            elif open_noise.get(patch) == rc:
+                # a recorded, documented limitation (DESIGN.md section 9): counted, shown in the evidence, not a new failure
+                known_noisy += 1
+                table.append(f"{name}: exit {rc} (recorded open limitation) - {first}")
             else:
                 noisy += 1
                 bad.append(f"behaviour-preserving refactoring {name} makes the check exit {rc}: {first}")
-    rep.extra["self_test"] = {"seeded_changes": caught + missed, "caught": caught, "undecided_or_recorded_gap": undecided, "silent_refactors": silent, "noisy_refactors": noisy, "skipped": skipped, "table": table}
-    print(f"  self-test: {caught}/{caught + missed + undecided} seeded changes reported ({undecided} recorded as undecided / gap), {silent}/{silent + noisy} refactorings silent, {skipped} skipped")
+    rep.extra["self_test"] = {"seeded_changes": caught + missed, "caught": caught, "undecided_or_recorded_gap": undecided, "silent_refactors": silent, "noisy_refactors": noisy, "recorded_open_limitations": known_noisy, "skipped": skipped, "table": table}
+    print(f"  self-test: {caught}/{caught + missed + undecided} seeded changes reported ({undecided} recorded as undecided / gap), {silent}/{silent + noisy + known_noisy} refactorings silent ({known_noisy} recorded open limitations), {skipped} skipped")
     if bad:
         raise AnalysisError("checker self-test failed: " + "; ".join(bad))
